@@ -25,6 +25,7 @@ type Ctx struct {
 	Selftest bool
 
 	mu         sync.Mutex
+	replayOnce sync.Once
 	violations []Violation
 	known      map[string]int
 	Ev         Evidence
@@ -57,6 +58,7 @@ func NewCtx(property, tier string, seed int64) *Ctx {
 	c.Scratch = Scratch(property)
 	c.known = map[string]int{}
 	c.nontrivial = map[string]struct{}{}
+	defer func() { _ = c.ReplayDir() }()
 	c.Ev = Evidence{PropertyID: property, Tier: tier, Seed: seed, Level: "model_checking", Coverage: map[string]any{}}
 	return c
 }
@@ -113,9 +115,15 @@ func (c *Ctx) AddTLC(r *TLCResult) {
 	c.AddCount("transitions", r.Generated)
 }
 
-// ReplayDir returns (and creates) the directory for this property's replay files.
+// ReplayDir returns (and creates) the directory for this property's replay
+// files. Replay files of earlier runs are removed on first use in a run.
 func (c *Ctx) ReplayDir() string {
 	d := filepath.Join(VerifDir, "replays", c.Property)
+	c.replayOnce.Do(func() {
+		if c.Replay == "" {
+			_ = os.RemoveAll(d)
+		}
+	})
 	_ = os.MkdirAll(d, 0o755)
 	return d
 }
